@@ -139,9 +139,9 @@ package internal
 //@   loop 1 invariant pInv(p) && 0 <= i && n <= len(p.events)
 //@   // readable, hang-up or error on a descriptor with a read armed completes the read;
 //@   // likewise for writes: no armed operation is left behind when the peer goes away
-//@   assert at "events&slot.Events&PollerReadEvent == PollerReadEvent": (event.Mask & 25 != 0 && armed(slot, PollerReadEvent)) ==>
+//@   assert at "PollerReadEvent == PollerReadEvent": (event.Mask & 25 != 0 && armed(slot, PollerReadEvent)) ==>
 //@          events&slot.Events&PollerReadEvent == PollerReadEvent
-//@   assert at "events&slot.Events&PollerWriteEvent == PollerWriteEvent": (events & 28 != 0 && armed(slot, PollerWriteEvent)) ==>
+//@   assert at "PollerWriteEvent == PollerWriteEvent": (events & 28 != 0 && armed(slot, PollerWriteEvent)) ==>
 //@          events&slot.Events&PollerWriteEvent == PollerWriteEvent
 //@   // a handler runs only for a direction that is armed right now (stale entries are filtered),
 //@   // and its interest is removed before it runs
